@@ -17,6 +17,8 @@ func init() {
 
 func checkC03(c *Ctx) {
 	l := c.L
+	c.rule("PASS-root-record", "existence and identity of a version come from its stored root record, not from the node cache or the working tree", 2)
+	checkRootRecord(c, "PASS-root-record")
 	c.rule("FORMAT-ics23-ops", "ics23 leaf/inner ops are the hash pre-image with a hole at the child", 4)
 	c.rule("FLOW-proof-path", "per-level proof node uses the node's own height/size and the opposite child's hash", 4)
 	c.rule("DOM-wrong-kind", "wrong-kind request is an error before any proof is built", 2)
